@@ -599,6 +599,9 @@ pub struct Fault {
     /// 0-based occurrence among calls with this (kind, class) since the plan was armed
     pub nth: u64,
     pub mode: FaultMode,
+    /// true: the failing call is applied first and the error is reported afterwards (an error
+    /// after the effect, like a failed flush); only meaningful for mutating calls
+    pub after_effect: bool,
 }
 
 #[derive(Clone, Debug, Default)]
@@ -753,6 +756,12 @@ impl SimFs {
 
     /// Common prologue of every call: ordering, counting, fault decision.
     fn enter(st: &mut State, kind: OpKind, class: PathClass) -> io::Result<()> {
+        SimFs::enter2(st, kind, class).map(|_| ())
+    }
+
+    /// Like `enter`, but a fault marked `after_effect` is returned as `Ok(true)`: the caller
+    /// applies the call and reports the error afterwards.
+    fn enter2(st: &mut State, kind: OpKind, class: PathClass) -> io::Result<bool> {
         crate::watch::tick();
         st.ops += 1;
         *st.counts.entry((kind, class)).or_insert(0) += 1;
@@ -760,6 +769,7 @@ impl SimFs {
             st.fault_fired += 1;
             return Err(injected());
         }
+        let mut after = false;
         if let Some(fault) = st.fault.clone() {
             if fault.kind == kind && fault.class == class {
                 let c = st.fault_counts.entry((kind, class)).or_insert(0);
@@ -777,11 +787,15 @@ impl SimFs {
                     if st.fault_first_fired_at.is_none() {
                         st.fault_first_fired_at = Some(st.ops);
                     }
-                    return Err(injected());
+                    if fault.after_effect && kind.is_mutating() {
+                        after = true;
+                    } else {
+                        return Err(injected());
+                    }
                 }
             }
         }
-        Ok(())
+        Ok(after)
     }
 
     fn mutate(&self, op: JOp) -> io::Result<u64> {
@@ -789,7 +803,7 @@ impl SimFs {
         let class = op.class();
         self.maybe_delay(kind, class);
         let mut st = self.shared.state.lock();
-        SimFs::enter(&mut st, kind, class)?;
+        let fail_after_effect = SimFs::enter2(&mut st, kind, class)?;
         if let Err(e) = st.core.check(&op) {
             if e.kind() == io::ErrorKind::NotFound {
                 if let Some(n) = st.removed.get(op.path()).copied() {
@@ -827,6 +841,9 @@ impl SimFs {
                 op,
                 bg: is_bg_thread(),
             });
+        }
+        if fail_after_effect {
+            return Err(injected());
         }
         Ok(id)
     }
